@@ -30,7 +30,7 @@ PROPS = {
                 "read delays; search depths 120..10000; strip/keep prompt; exact/fuzzy. The transport logs every read size and every write with "
                 "the device's reaction; the model replays that schedule and must reproduce every result and every write. Non-trivial = more "
                 "than one command; hypotheses_true_by_model counts the cases on which the model evaluated session_ok (the theorem's "
-                "hypothesis) to true.",
+                "hypothesis) to true. A quarter of the commands end in a run of one byte; one segmentation class delivers everything but the last byte, then the last byte alone. Standing sub-check PF: the channel's pure functions (BytesRoughlyContains, processReadBuf, processOut, per-read normalisation) against their Coq transcriptions on 3000 inputs.",
         "level_text": "Theorems C01_cli_alignment / C01_progress / C01_schedule_independent hold for every schedule (every cut of the device "
                       "stream into reads, every interleaving of reader and operation), every command list and every device script meeting the "
                       "property's preconditions (session_ok), proved by an invariant over the interpreter of the transcribed programs "
@@ -63,7 +63,7 @@ PROPS = {
         "cone": ["Telnet", "TelnetLemmas"],
         "rule": "real transport.Telnet against a loopback TCP server: openings drawn from the RFC 854 token grammar (option negotiations with all "
                 "four verbs x option codes incl. SGA, two-byte commands NOP/GA/..., escaped IAC, banner data) x random TCP segmentations; compared: "
-                "bytes the server received, bytes returned by the first reads; non-trivial = opening has a negotiation and data",
+                "bytes the server received, bytes returned by the first reads; non-trivial = opening has a negotiation and data A quarter of the cases first open a connection that ends inside a telnet command on the SAME transport object, then the opening under test on a new connection.",
         "level_text": "Theorem C15_negotiation: for every token sequence the byte-at-a-time parser answers each option request exactly once with the "
                       "RFC answer, ends outside control mode and buffers exactly the data bytes in order (induction over tokens, all option codes, "
                       "unbounded). The model is tied to transport/telnet.go by running the real transport over loopback TCP.",
@@ -129,7 +129,7 @@ PROPS = {
                 "mixing SendCommand, SendCommands, SendConfigs (default 'configuration' or explicit level) and AcquirePriv (incl. unknown targets), "
                 "read segmentations. The transport log is replayed by the model of driver/network (programs over the Channel interpreter); compared: "
                 "per-call outcome/result, every write (with redaction of the secret), the cached level. Oracle: device (mode, line) log = commands of "
-                "the BFS tree path then the operation's lines, final mode = target. Non-trivial = more than one level.",
+                "the BFS tree path then the operation's lines, final mode = target. Non-trivial = more than one level. A third of the trees have twin sibling leaves with one prompt pattern (as IOS-XR configuration / configuration-exclusive), acquire targets biased to the twins; sessions never start in a twin.",
         "level_text": "Theorems C04_tree_path / _tree_path_unique / _dfs_order_irrelevant / _acquire / _unknown_target: for every well-formed privilege tree, "
                       "every iteration order of Go's maps, every (current, target) pair: the DFS returns the unique tree path and the acquire loop drives "
                       "the device along it with exactly the path's commands (graph induction + loop invariant, unbounded). The transcription of "
@@ -170,7 +170,7 @@ PROPS = {
                 "model prints every legal outcome of the race between the loss and the operation's consumption of already-queued chunks (the "
                 "implementation tests the error hand-off and the exited flag before the queue) and the implementation's outcome must be one of "
                 "them. Oracle: an error of connection/transport class promptly (< 600 ms with a 1.5 s timeout), never success with output other "
-                "than the dry run's, every later operation fails, the process survives (Close returns).",
+                "than the dry run's, every later operation fails, the process survives (Close returns). Also: callback sends as the operation in flight; idle losses after unsolicited device output (log line + prompt already queued) followed by GetPrompt or a command.",
         "level_text": "Model: reader EOF/error states and the operation's read-until taking its error continuation (Channel.step Eof/Ioerr), with the "
                       "same all-schedule lemmas as C05; tied to the code by replaying real sessions with injected losses (membership in the model's "
                       "legal-outcome set).",
@@ -208,7 +208,7 @@ PROPS = {
         "rule": "exhaustive table {system, standard, system with real OpenSSH} x {strict (default), not strict} x {known-hosts has the key / another key / "
                 "empty / not given} x {password, key, both}, then random ports/users/extra args/config file/netconf; system transport through a stand-in "
                 "ssh binary that records argv, standard transport against an in-process x/crypto/ssh server with a fresh host key (and a second server "
-                "whose key is in no file, to tell an insecure policy from a checking one); non-trivial = every case",
+                "whose key is in no file, to tell an insecure policy from a checking one); non-trivial = every case Known-hosts kinds include the server key listed as @revoked (alone and next to a matching entry).",
         "level_text": "Theorems C14_* (29) over the model of System.buildOpenArgs (built from the generated literal list, so the source decides the "
                       "strings) and Standard.openBase hold for all settings and strings: strict => yes-option present / no-option absent / known-hosts "
                       "named; argv independent of the password; host/port/user/key/config as configured; policy and auth-method decisions; default "
@@ -225,7 +225,7 @@ PROPS = {
                 "over-represented), five split patterns, random interleavings of peer sends and client writes; blocked-read-then-close and "
                 "peer-hang-up with a watchdog; about 1/6 of the cases run a whole CLI or NETCONF session over the real transport and over the "
                 "simulated ideal pipe and compare. The slices the real Read calls returned are fed to the model as deliveries: it must return "
-                "the same slices. Non-trivial = payload larger than the read size or an interleaving.",
+                "the same slices. Non-trivial = payload larger than the read size or an interleaving. Mode close-silent: the ssh peer stops reading its socket (answers nothing, not even channel close) before the transport is closed.",
         "level_text": "Theorems C16_* (12) over the model of the three Read wrappers and Write: for all read-size sequences, delivery splittings and "
                       "errors every byte is returned exactly once and in order, writes arrive concatenated in order, a read returns 1..n bytes "
                       "(telnet's first read returns the whole negotiation buffer: stated exception), errors are reported without data. Tied to the "
@@ -273,7 +273,7 @@ PROPS = {
                 "banner lines delivered whole (the property's segmentation restriction), prompts cut bytewise; the logged schedule is replayed by "
                 "the model of channel/auth.go + Channel.Open; compared: open error class, every write with its redaction flag, the first read "
                 "after open (login bytes kept). Oracle: outcome per the dialogue, credential sent only to its prompt, <= 2 each, transport closed "
-                "on failure. Non-trivial = more than one turn.",
+                "on failure. Non-trivial = more than one turn. A sixth of the dialogues print a message of the day longer than the prompt search depth before the shell prompt; oracle: everything printed after the last credential is returned by the first read.",
         "level_text": "Theorems C10_* over every path of the login programs (and, by run_has_trace, every execution): credentials sent at most the "
                       "generated maximum, always redacted, only directly after a read on which their prompt pattern matched; success iff the "
                       "shell prompt matched; (max+1)-th prompt -> authentication error; ssh failure message -> connection error; silence -> timeout; "
@@ -289,7 +289,7 @@ PROPS = {
         "rule": "the login dialogues of C10 and privilege escalations (device asks / grants without asking / refuses) run with a logger at "
                 "debug/info/critical and a channel log attached; secrets include format verbs, regex metacharacters, non-ASCII and the literal "
                 "'redacted'; every log line and the channel log are searched for every secret; compared with the model: which writes were "
-                "logged as redacted. Non-trivial = more than one turn / every escalation.",
+                "logged as redacted. Non-trivial = more than one turn / every escalation. A quarter of the cases make the k-th transport write fail (the link dies while a credential is being sent): log oracle only on those.",
         "level_text": "Noninterference theorems C11_*: programs that differ only in the payload of redacted writes (login with other credentials, "
                       "escalation / AcquirePriv / SendCommand with another secondary secret, interactive sends with other hidden inputs) produce, "
                       "on every schedule, the same visible log (what Channel.Write and the loggers receive) against a device whose reactions do "
@@ -319,7 +319,7 @@ PROPS = {
         "rule": "random command lists (1-10) with failure strings planted at none/first/middle/last/several outputs, "
                 "driver-level x operation-level failure lists, stop-on-failed on/off, SendCommands / SendCommand-each / "
                 "SendCommandsFromFile through generic.Driver over the simulated transport; non-trivial = some response "
-                "failed and more than one command",
+                "failed and more than one command Half of the cases first run another operation with its own operation-level list (and sometimes stop-on-failed) on the same driver: nothing of it may carry over.",
         "trusted_base": ["exchange with the device abstracted as (command, output) pairs in the C13 theorems; "
                          "the exchange itself is C01's subject"],
         "level_text": "Theorems C13_failed_iff/_failed_first/_precedence/_multi/_nostop/_stop/_collapse over the model of "
